@@ -17,6 +17,7 @@ import (
 
 	"verif/corpus"
 	"verif/ev"
+	"verif/oneline"
 	"verif/tc"
 	"verif/tgen"
 )
@@ -292,6 +293,29 @@ func TestPropSeeds(t *testing.T) {
 			}
 		}
 	}
+}
+
+// TestPropLayouts enumerates the layout family (package oneline): every Go expression slot with
+// every placement of blanks and line breaks between the expression's tokens.
+func TestPropLayouts(t *testing.T) {
+	shard, shards := ev.Shard()
+	gaps := oneline.QuickGaps
+	if ev.Thorough() {
+		gaps = oneline.ThoroughGaps
+	}
+	total := 0
+	oneline.EachLayout(shard, shards, gaps, func(name, src string) {
+		n, err := decide(src, nil)
+		rec.Eval(n)
+		total += n
+		if n > 0 {
+			rec.NonTrivial(src, func() any { return map[string]any{"layout": name, "source": clip(src)} })
+		}
+		if err != nil {
+			rec.Fail(t, Case{Source: ev.QStr(src)}, "layout %s: %v", name, err)
+		}
+	})
+	rec.ClassN("expressions of the layout family (enumerated completely)", total)
 }
 
 func knownClass(string, error) string { return "" }
